@@ -78,6 +78,18 @@ func c02Alphabet() (calls []e1.Call, batches map[string]c02Batch) {
 			return obsSingle(w.C("d", "c").FindOneAndDelete(w.Ctx, bD(), options.FindOneAndDelete().SetProjection(proj)))
 		}})
 	}
+	// a projection that is only rejected for the shape the write itself creates (an $elemMatch with an unknown operator
+	// is evaluated on non-empty arrays only), asked to return the new version
+	shapeProj := bD("fresh", bD("$elemMatch", bD("$bogus", int32(1))))
+	add(e1.Call{Name: "d.c.FindOneAndUpdate({_id:2}, $push fresh, after, projection rejected on the new version)", Do: func(w *world.World) string {
+		return obsSingle(w.C("d", "c").FindOneAndUpdate(w.Ctx, bD("_id", int32(2)), bD("$push", bD("fresh", int32(1))), options.FindOneAndUpdate().SetProjection(shapeProj).SetReturnDocument(options.After)))
+	}})
+	add(e1.Call{Name: "d.c.FindOneAndReplace({_id:3}, {u:33,fresh:[1]}, after, projection rejected on the new version)", Do: func(w *world.World) string {
+		return obsSingle(w.C("d", "c").FindOneAndReplace(w.Ctx, bD("_id", int32(3)), bD("u", int32(33), "fresh", bson.A{int32(1)}), options.FindOneAndReplace().SetProjection(shapeProj).SetReturnDocument(options.After)))
+	}})
+	add(e1.Call{Name: "d.c.FindOneAndUpdate({_id:40}, upsert $push fresh, after, projection rejected on the new version)", Do: func(w *world.World) string {
+		return obsSingle(w.C("d", "c").FindOneAndUpdate(w.Ctx, bD("_id", int32(40)), bD("$push", bD("fresh", int32(1))), options.FindOneAndUpdate().SetProjection(shapeProj).SetReturnDocument(options.After).SetUpsert(true)))
+	}})
 	add(cDelete("d", "c", true, bD("u", bD("$in", int32(1)))))
 	add(cDelete("d", "c", false, bD("_id", int32(2))))
 	// batches: the failing item at every position, and two failing items
